@@ -265,12 +265,13 @@ class Prover:
         self.max_rlimit = 0
         self._trig = {}
         self._ment = {}
+        self.candidate_models = False
         self.feasible_axioms = True   # confirm infeasibility with the quantified axioms (slower, fewer paths)
         self.time = 0.0
         self.queries = 0
 
-    def _solver(self, timeout_ms, pc, extra, axioms=True):
-        s = z3.Solver()
+    def _solver(self, timeout_ms, pc, extra, axioms=True, simple=False):
+        s = z3.SimpleSolver() if simple else z3.Solver()
         s.set("timeout", timeout_ms)
         plain = [f for f in pc if z3.is_expr(f)]
         lazy = [f for f in pc if not z3.is_expr(f)]
@@ -346,6 +347,8 @@ class Prover:
         t = time.time()
         r = None
         s = None
+        cand_tried = False
+        used_cand = False
         for seed, budget in plan:
             s = self._solver(total * 6, pc, [z3.Not(goal)])
             s.set("rlimit", int(max(budget, 200000)))
@@ -360,6 +363,27 @@ class Prover:
                 pass
             if r != z3.unknown:
                 break
+            if self.candidate_models and budget >= unit // 100 and not cand_tried:
+                # E-matching only (no model-based instantiation): if the instantiation saturates
+                # without a contradiction the remaining model is a counter-model of the VC with the
+                # axioms instantiated at every term the patterns reach
+                cand_tried = True
+                s2 = self._solver(total * 6, pc, [z3.Not(goal)], simple=True)
+                s2.set("auto_config", False)
+                s2.set("mbqi", False)
+                s2.set("rlimit", int(max(unit // 20, 2000000)))
+                r2 = s2.check()
+                if r2 == z3.sat or (r2 == z3.unknown and "incomplete" in s2.reason_unknown()):
+                    try:
+                        cand = s2.model()
+                    except Exception:
+                        cand = None
+                    if cand is not None:
+                        r, s, used_cand = z3.sat, s2, True
+                        break
+                elif r2 == z3.unsat:
+                    r, s = r2, s2
+                    break
         dt = time.time() - t
         self.time += dt
         self.queries += 1
@@ -368,7 +392,7 @@ class Prover:
         if r == z3.sat:
             try:
                 m = s.model()
-                detail = "counter-model: " + ", ".join(f"{d.name()}={m[d]}" for d in list(m.decls())[:40] if d.arity() == 0)
+                detail = ("counter-model of the VC (quantified axioms instantiated by E-matching): " if used_cand else "counter-model: ") + ", ".join(f"{d.name()}={m[d]}" for d in list(m.decls())[:40] if d.arity() == 0)
             except Exception:
                 m = None
                 detail = "sat"
